@@ -403,6 +403,8 @@ func (p *Program) runInit() []*Obligation {
 	fn := p.Main.Func("init")
 	ex := p.newExec(fn, nil)
 	ex.isInit = true
+	ex.lenient = true
+	ex.reportLenient = true
 	ex.name = "init"
 	ex.nfresh = initSymBase
 	func() {
